@@ -52,6 +52,20 @@ func accessPath(v ssa.Value) string {
 			if _, ok := x.X.(*ssa.FieldAddr); ok {
 				return accessPath(x.X)
 			}
+			// a parameter spilled to a cell because closures capture it
+			if al, ok := x.X.(*ssa.Alloc); ok {
+				var p *ssa.Parameter
+				n := 0
+				for _, ref := range *al.Referrers() {
+					if st, ok := ref.(*ssa.Store); ok && st.Addr == ssa.Value(al) {
+						n++
+						p, _ = st.Val.(*ssa.Parameter)
+					}
+				}
+				if n == 1 && p != nil {
+					return p.Name()
+				}
+			}
 		}
 	}
 	return ""
